@@ -519,7 +519,6 @@ func runPrincipalCase(ls []line) []string {
 		return len(b), nil
 	}
 
-	tc := &inConn{}
 	tconn := struct {
 		connBase
 		io.Reader
@@ -542,7 +541,6 @@ func runPrincipalCase(ls []line) []string {
 			return len(b), nil
 		}),
 	}
-	_ = tc
 
 	ci := func(i authgrants.Intent, c *certs.Certificate) error {
 		flushTarget()
